@@ -94,9 +94,6 @@ class TokTheory(ObjTheory):
             z3.ForAll([x, y], memcf(z3.Unit(y), x) == (casefold(y) == x), patterns=[memcf(z3.Unit(y), x)]),
             z3.ForAll([a, b, x], memcf(z3.Concat(a, b), x) == z3.Or(memcf(a, x), memcf(b, x)),
                       patterns=[memcf(z3.Concat(a, b), x)]),
-            # ground fact about every bundled grammar (validated natively on the 5 grammar classes):
-            z3.ForAll([x], memcf(AGGKEYS, x) == z3.Or(memcf(GRPKEYS, x), memcf(OBJKEYS, x)),
-                      patterns=[memcf(AGGKEYS, x)]),
         ]
         return ax
 
@@ -272,10 +269,12 @@ class TokTheory(ObjTheory):
         if isinstance(recv, ExcV) and attr == "token":
             if recv.payload is not None and isinstance(recv.payload, list):
                 return recv.payload[1] if len(recv.payload) > 1 else Conc(None)
-            # raised by a callee: unknown
+            # raised by a callee: unknown, but the same on every read
             if ex.path.choose(2, "err.token") == 0:
-                return Conc(None)
-            return Z("tok", fresh("errtok", S))
+                recv.payload = [None, Conc(None)]
+            else:
+                recv.payload = [None, Z("tok", fresh("errtok", S))]
+            return recv.payload[1]
         return super().getattr(ex, recv, attr)
 
     def setattr(self, ex, recv, attr, v):
